@@ -2,16 +2,18 @@
 (***************************************************************************)
 (* Unbounded check of Repro's Function with Apalache: in the intended      *)
 (* design (no deviation) every Build(f), after ANY history of environment  *)
-(* changes of any length, yields the output id <<f>>; hence any two builds *)
-(* of the same format agree.  IndInv is inductive.                         *)
+(* changes of any length, yields the output id <<f, src>>; hence any two    *)
+(* builds of the same format and sources agree.  IndInv is inductive.                         *)
 (***************************************************************************)
 EXTENDS Integers, Sequences, Apalache
 
 VARIABLES
   \* @type: { clock: Int, tz: Str, procs: Int, style: Str, pid: Int };
   env,
-  \* @type: Seq({ fmt: Str, id: Str });
-  outs
+  \* @type: Seq({ fmt: Str, src: Int, id: <<Str, Int>> });
+  outs,
+  \* @type: Int;
+  src
 
 Formats == {"deb", "rpm", "apk", "archlinux", "ipk"}
 TZs == {"UTC", "Asia/Kolkata", "America/St_Johns"}
@@ -19,21 +21,23 @@ Procs == {1, 2, 4, 16}
 Styles == {"abs", "rel"}
 
 Init == /\ env = [clock |-> 0, tz |-> "UTC", procs |-> 16, style |-> "abs", pid |-> 0]
-        /\ outs = <<>>
+        /\ outs = <<>> /\ src = 0
 
-Tick == env' = [env EXCEPT !.clock = env.clock + 1] /\ UNCHANGED outs
-SetTZ == \E z \in TZs : env' = [env EXCEPT !.tz = z] /\ UNCHANGED outs
-SetProcs == \E n \in Procs : env' = [env EXCEPT !.procs = n] /\ UNCHANGED outs
-SwitchStyle == \E s \in Styles : env' = [env EXCEPT !.style = s] /\ UNCHANGED outs
-NewProcess == env' = [env EXCEPT !.pid = env.pid + 1] /\ UNCHANGED outs
-\* the output id of the intended design: a function of the format alone (the case is fixed)
-Build == \E f \in Formats : outs' = Append(outs, [fmt |-> f, id |-> f]) /\ UNCHANGED env
-Next == Tick \/ SetTZ \/ SetProcs \/ SwitchStyle \/ NewProcess \/ Build
+Tick == env' = [env EXCEPT !.clock = env.clock + 1] /\ UNCHANGED <<outs, src>>
+SetTZ == \E z \in TZs : env' = [env EXCEPT !.tz = z] /\ UNCHANGED <<outs, src>>
+SetProcs == \E n \in Procs : env' = [env EXCEPT !.procs = n] /\ UNCHANGED <<outs, src>>
+SwitchStyle == \E s \in Styles : env' = [env EXCEPT !.style = s] /\ UNCHANGED <<outs, src>>
+NewProcess == env' = [env EXCEPT !.pid = env.pid + 1] /\ UNCHANGED <<outs, src>>
+ChangeSources == src' = src + 1 /\ UNCHANGED <<env, outs>>
+\* the output id of the intended design: a function of the format and the sources as they are (the case is fixed)
+Build == \E f \in Formats : outs' = Append(outs, [fmt |-> f, src |-> src, id |-> <<f, src>>]) /\ UNCHANGED <<env, src>>
+Next == Tick \/ SetTZ \/ SetProcs \/ SwitchStyle \/ NewProcess \/ ChangeSources \/ Build
 
-Function == \A a \in DOMAIN outs : \A b \in DOMAIN outs : outs[a].fmt = outs[b].fmt => outs[a].id = outs[b].id
+Function == \A a \in DOMAIN outs : \A b \in DOMAIN outs : (outs[a].fmt = outs[b].fmt /\ outs[a].src = outs[b].src) => outs[a].id = outs[b].id
 
 \* an arbitrary state satisfying IndInv (Gen: any value of the type, sequences of up to 8 builds)
-IndInit == env = Gen(1) /\ outs = Gen(8) /\ (\A a \in DOMAIN outs : outs[a].id = outs[a].fmt /\ outs[a].fmt \in Formats)
+IndInit == env = Gen(1) /\ outs = Gen(8) /\ src = Gen(1)
+           /\ (\A a \in DOMAIN outs : outs[a].id = <<outs[a].fmt, outs[a].src>> /\ outs[a].fmt \in Formats)
 
-IndInv == \A a \in DOMAIN outs : outs[a].id = outs[a].fmt /\ outs[a].fmt \in Formats
+IndInv == \A a \in DOMAIN outs : outs[a].id = <<outs[a].fmt, outs[a].src>> /\ outs[a].fmt \in Formats
 =============================================================================
